@@ -57,6 +57,21 @@ MUTANTS = [
     dict(id='c01-dispatch-arm', prop='C01', rule='R1.5', file=DISP, old="Dispatch::Avx2 => Avx2::argmax_f32(scores),", new="Dispatch::Avx2 => Sse2::argmax(scores),"),
     dict(id='c01-dispatch-op', prop='C01', rule='R1.5', file=DISP, old="Dispatch::Avx2 => Avx2::max_u8(scores),", new="Dispatch::Avx2 => Avx2::argmax_u8(scores).map(|c| scores.matrix()[c] / 2),"),
     dict(id='c01-score-position-offset', prop='C01', rule='R1.6', file=PWM, old="            score += row[s[pos + j].as_index()]\n        }\n        score\n    }\n\n    /// Get a discrete matrix", new="            score += row[s[pos + j + 1].as_index()]\n        }\n        score\n    }\n\n    /// Get a discrete matrix"),
+    # ---- C04
+    dict(id='c04-unpack-width', prop='C04', rule='R4.1', file=AVX2, old="        unpack!(epi16, r05, r07);", new="        unpack!(epi32, r05, r07);"),
+    dict(id='c04-unpack-pairing', prop='C04', rule='R4.1', file=AVX2, old="        unpack!(epi64, r06, r14);\n        unpack!(epi64, r01, r09);", new="        unpack!(epi64, r06, r09);\n        unpack!(epi64, r01, r14);"),
+    dict(id='c04-store-swapped', prop='C04', rule='R4.1', file=AVX2, old="        _mm256_stream_si256(out.add(0x01 * out_stride) as _, r08);\n        _mm256_stream_si256(out.add(0x02 * out_stride) as _, r04);", new="        _mm256_stream_si256(out.add(0x01 * out_stride) as _, r04);\n        _mm256_stream_si256(out.add(0x02 * out_stride) as _, r08);"),
+    dict(id='c04-src-advance', prop='C04', rule='R4.2', file=AVX2, old="        src = src.add(0x20);", new="        src = src.add(0x10);"),
+    dict(id='c04-tail-transposed', prop='C04', rule='R4.3', file=AVX2, old="                matrix[i][j] = s[j * src_stride + i];", new="                matrix[i][j] = s[i * 32 + j];"),
+    dict(id='c04-fill-formula', prop='C04', rule='R4.3', file=AVX2, old="matrix[k % src_stride][k / src_stride] = A::Symbol::default();", new="matrix[k / 32][k % 32] = A::Symbol::default();"),
+    dict(id='c04-generic-swap', prop='C04', rule='R4.4', file=PLI, old="            data[i % rows][i / rows] = x;", new="            data[i / C::USIZE][i % C::USIZE] = x;"),
+    dict(id='c04-generic-rows-floor', prop='C04', rule='R4.4', file=PLI, old="let rows = (length + (C::USIZE - 1)) / C::USIZE;\n        let capacity = rows + crate::seq::DEFAULT_EXTRA_ROWS;\n\n        // get the data", new="let rows = (length + C::USIZE) / C::USIZE;\n        let capacity = rows + crate::seq::DEFAULT_EXTRA_ROWS;\n\n        // get the data"),
+    dict(id='c04-wrap-resize-second-call', prop='C04', rule='R4.5', file=SEQ, old="self.data.resize(self.data.rows() + m - self.wrap);", new="self.data.resize(self.data.rows() + m);"),
+    dict(id='c04-wrap-rows-after-resize', prop='C04', rule='R4.5', file=SEQ, old="            let rows = self.data.rows() - self.wrap;\n            self.data.resize(self.data.rows() + m - self.wrap);", new="            self.data.resize(self.data.rows() + m - self.wrap);\n            let rows = self.data.rows() - self.wrap;"),
+    dict(id='c04-wrap-no-shift', prop='C04', rule='R4.5', file=SEQ, old="self.data[rows + i][j] = self.data[i][j + 1];", new="self.data[rows + i][j] = self.data[i][j];"),
+    dict(id='c04-wrap-not-recorded', prop='C04', rule='R4.5', file=SEQ, old="            self.wrap = m;\n", new="            self.wrap = m.max(1);\n"),
+    dict(id='c04-reuse-keeps-wrap', prop='C04', rule='R4.6', file=SEQ, old="                length,\n                wrap: 0,\n", new="                wrap: length % 1 + 1,\n                length,"),
+    dict(id='c04-count-with-wrap', prop='C04', rule='R4.7', file=SEQ, old="        let rows = self.data.rows() - self.wrap;\n        let l = self.len();\n\n        for i in 0..rows {\n            let row = &self.data[i];\n            for j in 0..self.data.columns() {\n                let index = j * rows + i;\n                if index < l {\n                    counts", new="        let rows = self.data.rows();\n        let l = self.len();\n\n        for i in 0..rows {\n            let row = &self.data[i];\n            for j in 0..self.data.columns() {\n                let index = j * rows + i;\n                if index < l {\n                    counts"),
     # ---- C07
     dict(id='c07-max-zero-init', prop='C07', rule='R7.1', file=AVX2, old="let mut m3 = _mm256_set1_ps(f32::NEG_INFINITY);", new="let mut m3 = _mm256_setzero_ps();"),
     dict(id='c07-max-epi8', prop='C07', rule='R7.1', file=AVX2, old="m = _mm256_max_epu8(m, r);", new="m = _mm256_max_epi8(m, r);"),
@@ -193,6 +208,7 @@ MUTANTS = [
 ]
 
 BENIGN = [
+    dict(id='c04-guard-form', prop='C04', file=SEQ, old="        if m > self.wrap {", new="        if m >= self.wrap + 1 {"),
     dict(id='c07-argmax-strict-generic', prop='C07', file=PLI, old="if row[j] >= best_score {", new="if row[j] > best_score {"),
     dict(id='c07-cmp-lt', prop='C07', file=AVX2, old="let c3 = _mm256_cmp_ps(s3, r3, _CMP_LE_OS);", new="let c3 = _mm256_cmp_ps(s3, r3, _CMP_LT_OS);"),
     dict(id='c07-max-init-first-row', prop='C07', file=AVX2, old="let mut m1 = _mm256_set1_ps(f32::NEG_INFINITY);", new="let mut m1 = _mm256_load_ps(dataptr);"),
